@@ -7,11 +7,19 @@
 //	      first use of every lazily initialised cache inside it happens concurrently) `iterations` times, each
 //	      in a rotated order, and canonicalise what they get.
 //	      observable: the serial results joined by " ; " if every goroutine got them, else the first mismatch.
-//	first label, N, program
-//	      N goroutines, released together, compile and evaluate the program from source.  Placed first in the case
-//	      stream, so in a fresh process this is the first use of the standard-library scope (syntax.StdScope,
-//	      FixFuncs, the embedded-file cache), made concurrently.
-//	      observable: the common result, or the first differing pair.
+//	fresh label, N, stdin chunks (hex, '|' separated, may be empty), warm-up program (may be empty), program
+//	      Concurrent FIRST use in a fresh process.  The harness starts itself as a child process (C11_CHILD=1)
+//	      whose stdin is a pipe; the child releases N goroutines together, each compiles and evaluates the program
+//	      from source — so every lazily initialised piece of state behind it is cold: the standard-library scope,
+//	      FixFuncs, the embedded-file cache, the implicit decoder and import cache (programs may import ./d.json
+//	      and ./m.arrai, which the child creates in a temporary module), and stdin's read-once (`//os.stdin`).
+//	      With a warm-up program every goroutine first evaluates that and waits for the others, so that all of them
+//	      reach the program proper within microseconds of each other (used for `//os.stdin`: all goroutines must be
+//	      inside the first read before any input arrives).  Once the child reports that the goroutines are released,
+//	      the parent writes the chunks to the pipe with small delays and closes it.  A second child with ONE goroutine gives the serial result (skipped under the
+//	      race detector, where start-up takes half a minute: the goroutines are then compared with each other and
+//	      ./check compares with the specified result).
+//	      observable: the serial result if every goroutine got exactly it, else the first differing result.
 //	impc  label, keys of the callers (comma separated), per-key outcome scripts of add ("k=evn…", ';' separated)
 //	      N goroutines call importcache.GetOrAddFromCache on one shared cache; the i-th call of add for a key
 //	      returns a value (v), an error (e) or (nil, nil) (n) as scripted (v after the script ends).
@@ -29,9 +37,13 @@
 package main
 
 import (
+	"bufio"
 	"context"
+	"encoding/hex"
 	"fmt"
 	"os"
+	"os/exec"
+	"path/filepath"
 	"sort"
 	"strconv"
 	"strings"
@@ -144,17 +156,27 @@ func conc(p []string) string {
 	return strings.Join(serial, " ; ")
 }
 
-func first(p []string) string {
-	if len(p) < 3 {
-		return "harness-error:first-arity"
+// ---- fresh: concurrent first use in a child process
+
+func childMain() {
+	n, _ := strconv.Atoi(os.Getenv("C11_CHILD_N"))
+	src, warm := os.Getenv("C11_CHILD_SRC"), os.Getenv("C11_CHILD_WARM")
+	dir, err := os.MkdirTemp("", "c11child")
+	if err != nil {
+		fmt.Println("r\tharness-error:tempdir")
+		return
 	}
-	defer bracket(p[0])()
-	n, _ := strconv.Atoi(p[1])
+	defer os.RemoveAll(dir)
+	_ = os.WriteFile(filepath.Join(dir, "go.mod"), []byte("module c11child\n"), 0o600)
+	_ = os.WriteFile(filepath.Join(dir, "d.json"), []byte(`{"a": [1, 2], "b": 3}`), 0o600)
+	_ = os.WriteFile(filepath.Join(dir, "m.arrai"), []byte("(x: 1, y: {2, 3})"), 0o600)
 	results := make([]string, n)
-	var wg sync.WaitGroup
-	release := make(chan struct{})
+	var wg, warmed sync.WaitGroup
+	release, release2 := make(chan struct{}), make(chan struct{})
+	ctx := arraictx.InitRunCtx(context.Background())
 	for g := 0; g < n; g++ {
 		wg.Add(1)
+		warmed.Add(1)
 		go func(g int) {
 			defer wg.Done()
 			defer func() {
@@ -163,7 +185,12 @@ func first(p []string) string {
 				}
 			}()
 			<-release
-			v, err := hlib.EvalSrc(p[2])
+			if warm != "" {
+				_, _ = syntax.EvaluateExpr(ctx, filepath.Join(dir, "warm.arrai"), warm)
+			}
+			warmed.Done()
+			<-release2
+			v, err := syntax.EvaluateExpr(ctx, filepath.Join(dir, "main.arrai"), src)
 			if err != nil {
 				results[g] = "error"
 				return
@@ -172,13 +199,105 @@ func first(p []string) string {
 		}(g)
 	}
 	close(release)
+	warmed.Wait()
+	close(release2)
+	fmt.Println("ready")
 	wg.Wait()
-	for g := 1; g < n; g++ {
-		if results[g] != results[0] {
-			return "mismatch:" + clip(results[0]) + " vs " + clip(results[g])
+	for _, r := range results {
+		fmt.Println("r\t" + strings.NewReplacer("\\", "\\\\", "\n", "\\n", "\t", "\\t").Replace(r))
+	}
+}
+
+// runChild starts the harness as a child, feeds its stdin in chunks once it is ready, and returns the goroutines' results.
+func runChild(n int, chunks [][]byte, warm, src string) ([]string, string) {
+	exe, err := os.Executable()
+	if err != nil {
+		return nil, "harness-error:executable"
+	}
+	cmd := exec.Command(exe)
+	cmd.Env = append(os.Environ(), "C11_CHILD=1", "C11_CHILD_N="+strconv.Itoa(n), "C11_CHILD_SRC="+src, "C11_CHILD_WARM="+warm)
+	cmd.Stderr = os.Stderr
+	in, err := cmd.StdinPipe()
+	if err != nil {
+		return nil, "harness-error:stdin-pipe"
+	}
+	out, err := cmd.StdoutPipe()
+	if err != nil {
+		return nil, "harness-error:stdout-pipe"
+	}
+	if err := cmd.Start(); err != nil {
+		return nil, "harness-error:start"
+	}
+	timer := time.AfterFunc(10*time.Minute, func() { _ = cmd.Process.Kill() })
+	defer timer.Stop()
+	var results []string
+	sc := bufio.NewScanner(out)
+	sc.Buffer(make([]byte, 1<<20), 1<<26)
+	for sc.Scan() {
+		line := sc.Text()
+		switch {
+		case line == "ready":
+			go func() {
+				if len(chunks) > 0 {
+					time.Sleep(40 * time.Millisecond) // let every goroutine reach its read of the pipe
+				}
+				for _, c := range chunks {
+					time.Sleep(3 * time.Millisecond)
+					if _, err := in.Write(c); err != nil {
+						break
+					}
+				}
+				time.Sleep(2 * time.Millisecond)
+				_ = in.Close()
+			}()
+		case strings.HasPrefix(line, "r\t"):
+			results = append(results, strings.NewReplacer("\\\\", "\\", "\\n", "\n", "\\t", "\t").Replace(line[2:]))
 		}
 	}
-	return results[0]
+	if err := cmd.Wait(); err != nil && len(results) != n {
+		return results, "child-failed:" + clip(err.Error())
+	}
+	if len(results) != n {
+		return results, "child-incomplete:" + strconv.Itoa(len(results))
+	}
+	return results, ""
+}
+
+func fresh(p []string) string {
+	if len(p) < 5 {
+		return "harness-error:fresh-arity"
+	}
+	defer bracket(p[0])()
+	n, _ := strconv.Atoi(p[1])
+	var chunks [][]byte
+	for _, h := range strings.Split(p[2], "|") {
+		if h == "" {
+			continue
+		}
+		b, err := hex.DecodeString(h)
+		if err != nil {
+			return "harness-error:hex"
+		}
+		chunks = append(chunks, b)
+	}
+	got, bad := runChild(n, chunks, p[3], p[4])
+	if bad != "" {
+		return bad
+	}
+	want := got[0]
+	if !mark { // not under the race detector: a second fresh process, one goroutine, gives the serial result
+		serial, bad := runChild(1, chunks, p[3], p[4])
+		if bad != "" {
+			return "serial-" + bad
+		}
+		want = serial[0]
+	}
+	for _, r := range got {
+		if r != want {
+			return "mismatch:" + clip(r) + " instead of " + clip(want)
+		}
+	}
+	return want
 }
 
 func clip(s string) string {
@@ -323,9 +442,15 @@ func impx(p []string) string {
 
 func init() {
 	hlib.Register("conc", conc)
-	hlib.Register("first", first)
+	hlib.Register("fresh", fresh)
 	hlib.Register("impc", impc)
 	hlib.Register("impx", impx)
 }
 
-func main() { hlib.Main() }
+func main() {
+	if os.Getenv("C11_CHILD") != "" {
+		childMain()
+		return
+	}
+	hlib.Main()
+}
